@@ -18,6 +18,9 @@ type World struct {
 	Snaps   []*oracle.Tree // earlier states
 	Next    uint64         // lowest never-written index (append position)
 	Written []uint64       // indices that have held a value at some time
+	// Planted is the hint forgery that belongs to the witness the last algebraic fault built
+	// (the two are useless without each other).
+	Planted *HintStrategy
 }
 
 func NewWorld(depth int) *World {
@@ -197,6 +200,13 @@ func cloneIns(w *oracle.InsertionWitness) *oracle.InsertionWitness {
 	return c
 }
 
+func min64(a, b uint64) uint64 {
+	if a < b {
+		return a
+	}
+	return b
+}
+
 func pow2(n int) *big.Int { return new(big.Int).Lsh(big.NewInt(1), uint(n)) }
 
 func idxHints(depth int) []*HintStrategy {
@@ -263,6 +273,59 @@ var InsertionFaults = []InsertionFault{
 		}
 		return b
 	}},
+	{Name: "non-boolean-direction-digit-with-matching-sibling", Apply: func(t *tape.Tape, w *World, hw *oracle.InsertionWitness) *oracle.InsertionWitness {
+		// An algebraic attack on the conditional swap of a Merkle round. If a direction value b is not forced to be
+		// a bit, a round computes (left, right) = (cur + b(sib-cur), sib - b(sib-cur)). At the leaf level of the
+		// emptiness check cur = 0, so for ANY occupied pair of leaves (L, R) with R = L(1-m)/m the choice
+		// sib = L/m, b = m opens that pair as if it held an empty leaf. Identity commitments are chosen by users, so
+		// such a pair is a legal history. The index whose digits are (m, bits of the pair) is 2*pair + m: with
+		// m = batch+1 the honest slots of the batch fill the leaves after the pair and the last slot overwrites the
+		// pair's parent. Needs the forged digit vector (Planted) to be returned by the decomposition hint.
+		B := len(hw.Comms)
+		m := int64(B + 1)
+		k := (w.Next + 1) / 2
+		if 2*k+uint64(B) >= w.Size || w.Depth < 2 {
+			return nil
+		}
+		L := RandomCommitment(t)
+		if L.Sign() == 0 {
+			L = big.NewInt(7)
+		}
+		minv := new(big.Int).ModInverse(big.NewInt(m), oracle.R)
+		sib0 := oracle.Mod(new(big.Int).Mul(L, minv))
+		Rv := oracle.Mod(new(big.Int).Sub(sib0, L)) // L/m - L = L(1-m)/m
+		w.Snapshot()
+		w.Model.Set(2*k, L)
+		w.Model.Set(2*k+1, Rv)
+		w.Written = append(w.Written, 2*k, 2*k+1)
+		w.Next = 2*k + 2
+		st := w.Model.Clone()
+		b := &oracle.InsertionWitness{Start: new(big.Int).SetUint64(2*k + 2), Pre: st.Root(), Comms: hw.Comms}
+		for i := 0; i < B-1; i++ {
+			idx := 2*k + 2 + uint64(i)
+			b.Paths = append(b.Paths, st.Path(idx))
+			st.Set(idx, oracle.Mod(hw.Comms[i]))
+		}
+		path := st.Path(2 * k)
+		path[0] = sib0
+		b.Paths = append(b.Paths, path)
+		c := oracle.Mod(hw.Comms[B-1])
+		d := oracle.Mod(new(big.Int).Mul(big.NewInt(m), new(big.Int).Sub(sib0, c)))
+		cur := oracle.H2(oracle.Mod(new(big.Int).Add(c, d)), oracle.Mod(new(big.Int).Sub(sib0, d)))
+		for lvl := 1; lvl < w.Depth; lvl++ {
+			if (k>>uint(lvl-1))&1 == 0 {
+				cur = oracle.H2(cur, path[lvl])
+			} else {
+				cur = oracle.H2(path[lvl], cur)
+			}
+		}
+		b.Post = cur
+		RehashInsertion(b)
+		forgedIdx := new(big.Int).SetUint64(2*k + uint64(B) + 1)
+		digits := append([]*big.Int{big.NewInt(m)}, digitsOf(new(big.Int).SetUint64(k), w.Depth-1)...)
+		w.Planted = ExplicitDigits("nbits-direction-digit-"+big.NewInt(m).String()+"-with-matching-sibling", w.Depth, forgedIdx, digits)
+		return b
+	}, Hints: func(w *World, bw *oracle.InsertionWitness) []*HintStrategy { return []*HintStrategy{w.Planted} }},
 	{Name: "target-leaf-occupied", Apply: func(t *tape.Tape, w *World, hw *oracle.InsertionWitness) *oracle.InsertionWitness {
 		occ := w.occupied()
 		if len(occ) == 0 {
@@ -819,6 +882,80 @@ var DeletionFaults = []DeletionFault{
 	}, Hints: func(w *World, bw *oracle.DeletionWitness) []*HintStrategy {
 		return append([]*HintStrategy{SkipBit(w.Depth), NonBoolean(w.Depth + 1)}, invZeroHints()...)
 	}},
+	{Name: "foreign-index-with-opening-of-an-empty-leaf", Apply: func(t *tape.Tape, w *World, hw *oracle.DeletionWitness) *oracle.DeletionWitness {
+		// One slot names an index it has no business with (an occupied leaf that is never opened, an index beyond the
+		// padding range, 2^32-1) and presents the genuine opening of some EMPTY leaf e with the empty value. The
+		// decomposition hint is forged so that the path digits are those of e and the top ("skip") digit absorbs the
+		// difference (index - e)/2^depth - a field element, not a bit. If the skip digit is not forced to be a bit,
+		// the slot passes as a no-op.
+		slot := t.Pick(len(hw.Indices))
+		var e uint64
+		found := false
+		for try := 0; try < 24 && !found; try++ {
+			e = uint64(t.BigBelow(new(big.Int).SetUint64(w.Size)).Uint64())
+			found = w.Model.Get(e).Sign() == 0
+		}
+		if !found {
+			return nil
+		}
+		var index uint64
+		switch t.Draw(3) {
+		case 0:
+			inBatch := map[uint64]bool{}
+			for _, ix := range hw.Indices {
+				inBatch[ix.Uint64()] = true
+			}
+			var cand []uint64
+			for _, o := range w.occupied() {
+				if !inBatch[o] {
+					cand = append(cand, o)
+				}
+			}
+			if len(cand) == 0 {
+				return nil
+			}
+			index = cand[t.Pick(len(cand))]
+		case 1:
+			index = 2*w.Size + uint64(t.Draw(int(min64(w.Size, 1<<20))))
+			if index > 0xffffffff {
+				index = 0xffffffff
+			}
+		default:
+			index = 0xffffffff
+		}
+		st := w.Model.Clone()
+		b := &oracle.DeletionWitness{Pre: st.Root()}
+		for k := range hw.Indices {
+			ix := hw.Indices[k].Uint64()
+			if k == slot {
+				b.Indices = append(b.Indices, new(big.Int).SetUint64(index))
+				b.Items = append(b.Items, big.NewInt(0))
+				b.Paths = append(b.Paths, st.Path(e))
+				continue
+			}
+			b.Indices = append(b.Indices, new(big.Int).SetUint64(ix))
+			if ix >= w.Size {
+				b.Items = append(b.Items, new(big.Int).Set(hw.Items[k]))
+				var q []*big.Int
+				for _, v := range hw.Paths[k] {
+					q = append(q, new(big.Int).Set(v))
+				}
+				b.Paths = append(b.Paths, q)
+				continue
+			}
+			b.Items = append(b.Items, new(big.Int).Set(st.Get(ix)))
+			b.Paths = append(b.Paths, st.Path(ix))
+			st.Set(ix, big.NewInt(0))
+		}
+		b.Post = st.Root()
+		RehashDeletion(b)
+		top := new(big.Int).Sub(new(big.Int).SetUint64(index), new(big.Int).SetUint64(e))
+		top.Mul(top, new(big.Int).ModInverse(pow2(w.Depth), oracle.R))
+		top.Mod(top, oracle.R)
+		digits := append(digitsOf(new(big.Int).SetUint64(e), w.Depth), top)
+		w.Planted = ExplicitDigits("nbits-skip-digit-absorbs-foreign-position", w.Depth+1, new(big.Int).SetUint64(index), digits)
+		return b
+	}, Hints: func(w *World, bw *oracle.DeletionWitness) []*HintStrategy { return []*HintStrategy{w.Planted} }},
 	{Name: "pre-root-of-earlier-state", Apply: func(t *tape.Tape, w *World, hw *oracle.DeletionWitness) *oracle.DeletionWitness {
 		if len(w.Snaps) == 0 {
 			return nil
